@@ -12,7 +12,7 @@ from vfacts import strip, walk, method_name, must_pass_through, is_node
 from .prov import var_table, local_sources
 
 RULE = 'ARITY'
-FLOOR = 8
+FLOOR = 5
 ANCHORS = ['BDDTDTreeAutCore::addArityToSymbol', 'BDDTDTreeAutCore::AddTransition']
 
 
